@@ -329,9 +329,27 @@ let run_trip () =
     List.iter (fun p -> pf " | goto %s" (vec p)) cmds;
     pf "\n") out
 
+
+let run_camera () =
+  let reach = nflt () in let theta = nflt () in let el = nflt () in let rot = nflt () in
+  let me = nint () in
+  let n = nint () in
+  let nodes = ntimes n nvec in
+  let cfg = { cam_reach = reach; cam_theta = theta; cam_el = el; cam_rot = rot } in
+  (match take_picture fl cfg (nat_of_int me) nodes with
+   | None -> pf "error\n"
+   | Some l -> pf "picture"; List.iter (fun (i, p) -> pf " | %d %s" (int_of_nat i) (vec p)) l; pf "\n")
+
+let run_geo () =
+  let rf = nvec () in
+  let n = nint () in
+  let pts = ntimes n nvec in
+  List.iter (fun p -> pf "%s\n" (vec (geo_to_cartesian fl rf p))) pts
+
 (* ---- main ----------------------------------------------------------------------------------- *)
 let dispatch : (string * (unit -> unit)) list ref =
-  ref [ ("el", run_el); ("sim", run_sim); ("mission", run_mission); ("disp", run_disp); ("trip", run_trip) ]
+  ref [ ("el", run_el); ("sim", run_sim); ("mission", run_mission); ("disp", run_disp); ("trip", run_trip);
+        ("camera", run_camera); ("geo", run_geo) ]
 
 let () =
   load stdin;
